@@ -313,7 +313,7 @@ Section Meta.
   (* Inserting a padding / auxiliary data unit, or a repeat of the sequence's own header, with correct
      offsets (its next_parse_offset = its length, its previous_parse_offset = that of the unit it is put
      before, whose previous_parse_offset becomes the new unit's length) anywhere after the first data
-     unit of an accepted sequence: still accepted -- PROVIDED the two data-unit ordering patterns admit
+     unit of an accepted sequence: still accepted -- PROVIDED the two data-unit ordering patterns allow
      the new parse-code sequence (abstract automata here; that is C18/C19's subject) -- and the
      observation (verdict, sequence count, pictures output) is unchanged. *)
   Theorem insert_neutral_irrelevant u0 h0 a x u b :
